@@ -25,6 +25,30 @@ CHECKS = {
    technique="explicit-state exploration of the real engine over all Retract/Complete action-list placements and rule orders, lockstep retract-set/complete-flag model",
    text="Every rule set of 2 and 3 rules whose action lists place assignment / Retract(self|other|second other|unknown) / Complete() at every position (length <=2, thorough <=3), equal and dominant saliences, every rule order at every cycle: a retracted rule is never evaluated or fired again in the run, all other rules are evaluated every cycle with their fresh status, unknown names change nothing, remaining actions after Retract/Complete run, no cycle follows Complete, Execute returns nil.",
    note="Bounds: k<=3, action lists <=3, MaxCycle 8."),
+ "C04": dict(level="model_checking", design="§5 C04",
+   technique="bounded-exhaustive enumeration of assignment programs on the real engine, post-state compared with a reference model (stdlib reflection on an independent deep copy)",
+   text="Single-assignment matrix (5 operators x 33 destinations x 43 sources restricted to well-typed in-range pairs) and every ordered pair (thorough: triple) of 31 assignments, on Go-struct, slice, map, JSON and top-level backends: the caller's own objects / JSON fact / data-context entries after Execute equal the model's post-state, every other field included.",
+   note="Float->int of non-integral values, float32 rounding, negative->unsigned, out-of-range values and pointer-typed sources are outside the quantifier and skipped by the generator; the Go width of top-level variables is not judged."),
+ "C08": dict(level="model_checking", design="§5 C08",
+   technique="exhaustive enumeration of call histories on one instance, differential against a fresh instance (traces, return values, final facts)",
+   text="Every call history of length 2..3 (thorough 4) over the call alphabet of 3 rule sets (Execute ending normally, by Complete, by action error, at the cycle limit, by cancellation at poll p, after self/other Retract; FetchMatchingRules; each with its own facts) under 3 static rule orders: the n-th call on the reused instance must be observationally equal to the same call on a new instance.",
+   note="Differential oracle, no expected values; static orders only (per-cycle order exploration is C01-C03's)."),
+ "C11": dict(level="model_checking", design="§5 C11",
+   technique="exhaustive enumeration of rule sets x removal sets x flag x ALL k! rule orders on the real FetchMatchingRules, reference conflict set",
+   text="Every 2-rule set over 8 conditions (true/false/state/shared/nil pointer/missing fact/kind mismatch/index) x 6 salience pairs x removal sets (library and instance level) x flag, 3-rule sets over 5 (thorough 8) conditions, thorough 4-rule sets; 2 fact states; every iteration order: returned names == satisfied non-removed rules (each once), saliences non-increasing, facts untouched, no action probe ran, error iff flag and a failing condition.",
+   note="k<=4; conditions from the stated alphabet."),
+ "C13": dict(level="model_checking", design="§5 C13",
+   technique="explicit-state exploration of the real engine (all rule orders per cycle) with a counted fact method; invalidation epochs derived from the validated trace",
+   text="Programs with the counted pure call F.Heavy(F.I) in 1..3 rules in 8 surroundings together with 0..2 of 6 writer rules (invalidating and deliberately non-invalidating ones), every rule order at every cycle: between two invalidation events the call counter advances by at most 1.",
+   note="Total rules <=3 (thorough 4). The counted-accessor variant of the design (countingValueNode) is not built; field reads are covered through the method's argument only."),
+ "C14": dict(level="fault_enumeration", design="§5 C14",
+   technique="fault-point enumeration: every probe invocation index of the fault-free run x 4 failure kinds x flag x rule orders on the real engine, plus data-driven failure sites",
+   text="2-rule programs (14 condition shapes x 7 action lists x companions; thorough adds 3-rule programs): the fault-free run, then one run per probe invocation index x {panic(string), panic(error), nil dereference, index out of range}: no panic escapes, the failing rule is a non-candidate (or named in the returned error with the flag), healthy rules keep their fresh status, failed nodes are retried, an action failure returns an error naming the rule, keeps the completed prefix of actions and fires nothing further.",
+   note="Single fault per run; rule attribution of a probe from the listener sequence."),
+ "C15": dict(level="fault_enumeration", design="§5 C15",
+   technique="cancellation-point enumeration: every context poll index and every observable event of the fault-free run as flip point, on the real engine under every static rule order",
+   text="35 programs x flag x every static order: flip at EVERY poll index 1..P+1 (Canceled, DeadlineExceeded), at EVERY observable event (inside condition probes, inside action probes, in each listener callback) and before the call: no ExecuteRuleEntry / foreign action probe after the flip, zero firings on an already-cancelled context, context error returned unless Complete was called or no rule is satisfied on the final facts.",
+   note="A flip after the engine's last look at the context is accepted when nothing is left to do."),
 }
 
 def entry(pid, c):
